@@ -2,6 +2,7 @@ from collections.abc import Hashable
 from functools import singledispatch, wraps
 from typing import Any, Callable, Union
 
+import narwhals.stable.v1 as nw
 import numpy
 import pandas
 import scipy.sparse
@@ -21,6 +22,27 @@ def propagate_metadata(func: Callable) -> Callable:
         return evaluated
 
     return wrapper
+
+
+def narwhals_series_to_pandas(series: Any) -> pandas.Series:
+    """
+    Convert a narwhals series into a pandas series, keeping the declared
+    categories (and their order) of categorical data even when the backend's
+    own conversion would only carry over the values (e.g. pyarrow dictionary
+    arrays).
+    """
+    converted = series.to_pandas()
+    if series.dtype in (nw.Categorical, nw.Enum) and not isinstance(
+        converted.dtype, pandas.CategoricalDtype
+    ):
+        converted = pandas.Series(
+            pandas.Categorical(
+                converted, categories=series.cat.get_categories().to_list()
+            ),
+            index=converted.index,
+            name=converted.name,
+        )
+    return converted
 
 
 @singledispatch
